@@ -374,7 +374,7 @@ func TestC09Enum(t *testing.T) {
 // spread over the positions of the file. Every (file, size) combination runs in every tier.
 func TestC09Large(t *testing.T) {
 	for _, file := range []string{"agency.txt", "stops.txt", "stop_times.txt", "calendar_dates.txt"} {
-		for _, n := range []int{12000, 70000} {
+		for _, n := range []int{12001, 70003} {
 			file, n := file, n
 			t.Run(fmt.Sprintf("%s-%d", file, n), func(outer *testing.T) {
 				fail := ""
